@@ -266,11 +266,7 @@ Loop:
 func (session *ServerCommandSession) handleOptions(requestCtx nazahttp.HttpReqMsgCtx) error {
 	Log.Infof("[%s] < R OPTIONS", session.uniqueKey)
 	resp := PackResponseOptions(requestCtx.Headers.Get(HeaderCSeq))
-	if session.isWebSocket {
-		respLen := len([]byte(resp))
-		session.writeWsFrameHeader(respLen)
-	}
-	_, err := session.conn.Write([]byte(resp))
+	err := session.writeResponse(resp)
 	return err
 }
 
@@ -327,11 +323,7 @@ func (session *ServerCommandSession) handleDescribe(requestCtx nazahttp.HttpReqM
 		}
 
 		if authresp != "" {
-			if session.isWebSocket {
-				respLen := len([]byte(authresp))
-				session.writeWsFrameHeader(respLen)
-			}
-			_, err := session.conn.Write([]byte(authresp))
+			err := session.writeResponse(authresp)
 			return err
 		}
 	}
@@ -373,11 +365,7 @@ func (session *ServerCommandSession) feedSdp(rawSdp []byte) error {
 	session.subSession.InitWithSdp(sdpCtx)
 
 	resp := PackResponseDescribe(session.describeSeq, string(rawSdp))
-	if session.isWebSocket {
-		respLen := len([]byte(resp))
-		session.writeWsFrameHeader(respLen)
-	}
-	_, err := session.conn.Write([]byte(resp))
+	err := session.writeResponse(resp)
 	return err
 }
 
@@ -452,11 +440,7 @@ func (session *ServerCommandSession) handleSetup(requestCtx nazahttp.HttpReqMsgC
 		}
 
 		resp := PackResponseSetup(requestCtx.Headers.Get(HeaderCSeq), htv)
-		if session.isWebSocket {
-			respLen := len([]byte(resp))
-			session.writeWsFrameHeader(respLen)
-		}
-		_, err = session.conn.Write([]byte(resp))
+		err = session.writeResponse(resp)
 		return err
 	}
 
@@ -491,11 +475,7 @@ func (session *ServerCommandSession) handleSetup(requestCtx nazahttp.HttpReqMsgC
 	}
 
 	resp := PackResponseSetup(requestCtx.Headers.Get(HeaderCSeq), htv)
-	if session.isWebSocket {
-		respLen := len([]byte(resp))
-		session.writeWsFrameHeader(respLen)
-	}
-	_, err = session.conn.Write([]byte(resp))
+	err = session.writeResponse(resp)
 	return err
 }
 
@@ -522,34 +502,36 @@ func (session *ServerCommandSession) handlePlay(requestCtx nazahttp.HttpReqMsgCt
 		return err
 	}
 	resp := PackResponsePlay(requestCtx.Headers.Get(HeaderCSeq))
-	if session.isWebSocket {
-		respLen := len([]byte(resp))
-		session.writeWsFrameHeader(respLen)
-	}
-	_, err := session.conn.Write([]byte(resp))
+	err := session.writeResponse(resp)
 	return err
 }
 
 func (session *ServerCommandSession) handleTeardown(requestCtx nazahttp.HttpReqMsgCtx) error {
 	Log.Infof("[%s] < R TEARDOWN", session.uniqueKey)
 	resp := PackResponseTeardown(requestCtx.Headers.Get(HeaderCSeq))
-	if session.isWebSocket {
-		respLen := len([]byte(resp))
-		session.writeWsFrameHeader(respLen)
-	}
-	_, err := session.conn.Write([]byte(resp))
+	err := session.writeResponse(resp)
 	return err
 }
 
-func (session *ServerCommandSession) writeWsFrameHeader(respLen int) {
-	wsHeader := base.WsHeader{
-		Fin:           true,
-		Rsv1:          false,
-		Rsv2:          false,
-		Rsv3:          false,
-		Opcode:        base.Wso_Binary,
-		PayloadLength: uint64(respLen),
-		Masked:        false,
+// writeResponse sends one RTSP response; over WebSocket it travels in one frame.
+//
+// The write queue of the connection is bounded and drops what it cannot take, one element at a time, and
+// while a subscriber plays the publisher's goroutine queues interleaved RTP frames on the same connection.
+// Frame header and response text therefore have to be one element (see WriteInterleavedPacket): queued
+// separately, one of them could be dropped without the other, or a media frame could land between them.
+func (session *ServerCommandSession) writeResponse(resp string) error {
+	b := []byte(resp)
+	if session.isWebSocket {
+		h := base.MakeWsFrameHeader(base.WsHeader{
+			Fin:           true,
+			Opcode:        base.Wso_Binary,
+			PayloadLength: uint64(len(b)),
+		})
+		frame := make([]byte, len(h)+len(b))
+		copy(frame, h)
+		copy(frame[len(h):], b)
+		b = frame
 	}
-	session.conn.Write(base.MakeWsFrameHeader(wsHeader))
+	_, err := session.conn.Write(b)
+	return err
 }
